@@ -273,21 +273,23 @@ def typeName (E : Env) (root : Nat) : Nat → ATy → Res GoTy
 
 /-! ### getIDValue -/
 
-/-- `ok none` is Go's `("", false)` -/
+/-- getIDValue once the scope is fixed (`extra.Index == -1`); `ok none` is Go's `("", false)` -/
+def idInner (E : Env) (g' : Nat) (x : Extra) : Res (Option GRef) :=
+  if x.isEnum then
+    match E.findEnum g' x.sel with
+    | none => .ok none
+    | some en => match en.value? x.name with
+      | some _ => .ok (some (.enumVal g' x.sel x.name))
+      | none => .ok none
+  else if E.hasGlobal g' x.name then .ok (some (.global g' x.name)) else .ok none
+
 def getIDValue (E : Env) (g : Nat) (x : Extra) : Res (Option GRef) :=
   let g' := match x.index with
     | none => (match E.file? g with | some _ => some g | none => none)
     | some i => E.scopeInclude g i
   match g' with
   | none => .panic
-  | some g' =>
-    if x.isEnum then
-      match E.findEnum g' x.sel with
-      | none => .ok none
-      | some en => match en.value? x.name with
-        | some _ => .ok (some (.enumVal g' x.sel x.name))
-        | none => .ok none
-    else if E.hasGlobal g' x.name then .ok (some (.global g' x.name)) else .ok none
+  | some g' => idInner E g' x
 
 /-- `r.getIDValue(g, v.Extra)` where `v.Extra` may be nil (identifiers true/false, unresolved) -/
 def getID (E : Env) (g : Nat) (x : Option Extra) : Res (Option GRef) :=
@@ -356,21 +358,25 @@ def onDouble (E : Env) (g : Nat) (v : CV) : Res GoExpr :=
         | .panic => .panic
   | _ => .err
 
+/-- the switch of onStrBin -/
+def strBinCore (E : Env) (g : Nat) (v : CV) : Res GoExpr :=
+  match v with
+  | .lit s => .ok (.strLit (emitStr s))
+  | .ident s x =>
+      if s = bTrue || s = bFalse then .err
+      else match getID E g x with
+        | .ok (some r) => .ok (.ident r)
+        | .ok none => .err
+        | .err => .err
+        | .panic => .panic
+  | _ => .err
+
+/-- onStrBin: the deferred function wraps a successful result of a binary type in `[]byte(…)` -/
 def onStrBin (E : Env) (g : Nat) (t : ATy) (v : CV) : Res GoExpr :=
-  let r : Res GoExpr :=
-    match v with
-    | .lit s => .ok (.strLit (emitStr s))
-    | .ident s x =>
-        if s = bTrue || s = bFalse then .err
-        else match getID E g x with
-          | .ok (some r) => .ok (.ident r)
-          | .ok none => .err
-          | .err => .err
-          | .panic => .panic
-    | _ => .err
-  match r with
+  match strBinCore E g v with
   | .ok e => if t.cat == .bin then .ok (.bytesConv e) else .ok e
-  | o => o
+  | .err => .err
+  | .panic => .panic
 
 def onEnum (E : Env) (g : Nat) (v : CV) : Res GoExpr :=
   match v with
@@ -735,8 +741,11 @@ def mapTy (E : Env) (gt : Nat) (t : ATy) : Option (Nat × ATy × ATy) :=
   | some (g', .map k v) => some (g', k, v)
   | _ => none
 
-/-- the value a resolved identifier denotes, seen from file `gv`: an enum member's number or the value of
-    the named constant -/
+/-- the value a resolved identifier denotes in file `f`: an enum member's number or the value of the constant -/
+def refInner (E : Env) (ρ : ConstEnv) (f : Nat) (x : Extra) : Option GoVal :=
+  if x.isEnum then enumLookup E f x.sel x.name else ρ f x.name
+
+/-- the value a resolved identifier denotes, seen from file `gv` -/
 def refValue (E : Env) (ρ : ConstEnv) (gv : Nat) (x : Option Extra) : Option GoVal :=
   match x with
   | none => none
@@ -746,69 +755,83 @@ def refValue (E : Env) (ρ : ConstEnv) (gv : Nat) (x : Option Extra) : Option Go
       | some i => E.astInclude gv i
     match f with
     | none => none
-    | some f => if x.isEnum then enumLookup E f x.sel x.name else ρ f x.name
+    | some f => refInner E ρ f x
+
+/-- bool: 0/1/true/false, or a reference -/
+def idlBool (E : Env) (ρ : ConstEnv) (gv : Nat) (v : CV) : Option GoVal :=
+  match v with
+  | .int n => if n = 0 then some (.bool false) else if n = 1 then some (.bool true) else none
+  | .ident s x =>
+      if s = bTrue then some (.bool true) else if s = bFalse then some (.bool false)
+      else match refValue E ρ gv x with
+        | some (.bool b) => some (.bool b)
+        | _ => none
+  | _ => none
+
+/-- integers: a number that fits, or a reference to one -/
+def idlInt (E : Env) (ρ : ConstEnv) (gv : Nat) (bits : Nat) (v : CV) : Option GoVal :=
+  match v with
+  | .int n => if inRange bits n then some (.int n) else none
+  | .ident s x =>
+      if s = bTrue || s = bFalse then none
+      else match refValue E ρ gv x with
+        | some (.int n) => if inRange bits n then some (.int n) else none
+        | _ => none
+  | _ => none
+
+/-- double: a floating literal, an integer standing for a double, or a reference -/
+def idlDouble (E : Env) (ρ : ConstEnv) (gv : Nat) (v : CV) : Option GoVal :=
+  match v with
+  | .int n => some (.dbl (f64OfInt n))
+  | .dbl bits _ => some (.dbl bits)
+  | .ident s x =>
+      if s = bTrue || s = bFalse then none
+      else match refValue E ρ gv x with
+        | some (.dbl b) => some (.dbl b)
+        | _ => none
+  | _ => none
+
+/-- string / binary: a literal (delimiter already unescaped by the parser) read by the target language, or a reference -/
+def idlStr (E : Env) (ρ : ConstEnv) (gv : Nat) (v : CV) : Option GoVal :=
+  match v with
+  | .lit s => (interp s).map .bytes
+  | .ident s x =>
+      if s = bTrue || s = bFalse then none
+      else match refValue E ρ gv x with
+        | some (.bytes b) => some (.bytes b)
+        | _ => none
+  | _ => none
+
+/-- enum: a member by number or by name, or a reference -/
+def idlEnum (E : Env) (ρ : ConstEnv) (gv : Nat) (v : CV) : Option GoVal :=
+  match v with
+  | .int n => some (.int n)
+  | .ident _ x =>
+      match refValue E ρ gv x with
+      | some (.int n) => some (.int n)
+      | _ => none
+  | _ => none
 
 mutual
 /-- `gt`: the file the type is written in; `gv`: the file the initializer is written in -/
 def evalIDL (E : Env) (ρ : ConstEnv) : Nat → Nat → ATy → CV → Option GoVal
   | gt, gv, t, v =>
     match t.cat with
-    | .bool =>
-        match v with
-        | .int n => if n = 0 then some (.bool false) else if n = 1 then some (.bool true) else none
-        | .ident s x =>
-            if s = bTrue then some (.bool true) else if s = bFalse then some (.bool false)
-            else match refValue E ρ gv x with
-              | some (.bool b) => some (.bool b)
-              | _ => none
-        | _ => none
-    | .i8 | .i16 | .i32 | .i64 =>
-        let bits := t.cat.intBits.getD 64
-        match v with
-        | .int n => if inRange bits n then some (.int n) else none
-        | .ident s x =>
-            if s = bTrue || s = bFalse then none
-            else match refValue E ρ gv x with
-              | some (.int n) => if inRange bits n then some (.int n) else none
-              | _ => none
-        | _ => none
-    | .dbl =>
-        match v with
-        | .int n => some (.dbl (f64OfInt n))
-        | .dbl bits _ => some (.dbl bits)
-        | .ident s x =>
-            if s = bTrue || s = bFalse then none
-            else match refValue E ρ gv x with
-              | some (.dbl b) => some (.dbl b)
-              | _ => none
-        | _ => none
-    | .str | .bin =>
-        match v with
-        | .lit s => (interp s).map .bytes
-        | .ident s x =>
-            if s = bTrue || s = bFalse then none
-            else match refValue E ρ gv x with
-              | some (.bytes b) => some (.bytes b)
-              | _ => none
-        | _ => none
-    | .enum =>
-        match v with
-        | .int n => some (.int n)
-        | .ident _ x =>
-            match refValue E ρ gv x with
-            | some (.int n) => some (.int n)
-            | _ => none
-        | _ => none
+    | .bool => idlBool E ρ gv v
+    | .i8 => idlInt E ρ gv 8 v
+    | .i16 => idlInt E ρ gv 16 v
+    | .i32 => idlInt E ρ gv 32 v
+    | .i64 => idlInt E ρ gv 64 v
+    | .dbl => idlDouble E ρ gv v
+    | .str | .bin => idlStr E ρ gv v
+    | .enum => idlEnum E ρ gv v
     | .list | .set =>
         match v with
         | .list xs =>
-            match xs with
-            | [] => some (.list [])
-            | _ :: _ =>
-              match elemTy E gt t with
-              | some (g', e) => (evalIDLList E ρ g' gv e xs).map .list
-              | none => none
-        | .map [] => some (.list [])
+            match elemTy E gt t with
+            | some (g', e) => (evalIDLList E ρ g' gv e xs).map .list
+            | none => none
+        | .map kvs => if kvs.isEmpty then some (.list []) else none      -- `{}` for an empty list
         | .ident _ x =>
             match refValue E ρ gv x with
             | some (.list l) => some (.list l)
@@ -817,13 +840,10 @@ def evalIDL (E : Env) (ρ : ConstEnv) : Nat → Nat → ATy → CV → Option Go
     | .map =>
         match v with
         | .map kvs =>
-            match kvs with
-            | [] => some (.map [])
-            | _ :: _ =>
-              match mapTy E gt t with
-              | some (g', k, w) => (evalIDLPairs E ρ g' gv k w kvs).map .map
-              | none => none
-        | .list [] => some (.map [])
+            match mapTy E gt t with
+            | some (g', k, w) => (evalIDLPairs E ρ g' gv k w kvs).map .map
+            | none => none
+        | .list xs => if xs.isEmpty then some (.map []) else none       -- `[]` for an empty map
         | .ident _ x =>
             match refValue E ρ gv x with
             | some (.map m) => some (.map m)
